@@ -48,21 +48,26 @@ class Collector:
         """case_id None: the caller registers its distinct cases itself (run.rt(key, n=0))"""
         self.run.rt(None if case_id is None else (obligation, case_id))
 
-    def fail(self, obligation, what, cls, case_id, replay):
-        """cls: dict of class fields (matchable); replay: exact inputs / expected / actual of this failing case"""
+    def fail(self, obligation, what, cls, case_id, replay, member=None):
+        """cls: dict of class fields (matchable); replay: exact inputs / expected / actual of this failing case;
+        member: optional label (e.g. the op) collected per class and listed in the key as `members`"""
         self.run.rt(None if case_id is None else (obligation, case_id))
         k = (obligation, tuple(sorted((a, repr(b)) for a, b in cls.items())))
         c = self.classes.get(k)
         if c is None:
-            self.classes[k] = c = {"obligation": obligation, "what": what, "cls": dict(cls), "n": 0, "first": replay, "more": []}
+            self.classes[k] = c = {"obligation": obligation, "what": what, "cls": dict(cls), "n": 0, "first": replay, "more": [], "members": set()}
         elif len(c["more"]) < self.max_examples:
             c["more"].append(replay)
         c["n"] += 1
+        if member is not None:
+            c["members"].add(member)
 
     def flush(self):
         for c in self.classes.values():
             key = dict(c["cls"])
             key["failing_cases_in_class"] = c["n"]
+            if c["members"]:
+                key["members"] = sorted(c["members"])
             rep = dict(c["first"])
             rep["failing_cases_in_class"] = c["n"]
             rep["further_examples"] = c["more"]
@@ -77,5 +82,6 @@ def guarded(run, where, fn, *a, **kw):
     try:
         return fn(*a, **kw)
     except Exception as e:  # noqa: BLE001
-        run.error("%s [%s]" % (where, traceback.format_exc(limit=3).strip().splitlines()[-2].strip()), e)
+        tb = traceback.extract_tb(e.__traceback__)[-1]
+        run.error("%s [%s:%d in %s]" % (where, tb.filename.rsplit("/", 1)[-1], tb.lineno, tb.name), e)
         return None
